@@ -20,7 +20,7 @@ ASSUMPTIONS = [
     "index_by_groups=True is compared to 1e-9 relative (it is computed by pandas' own rolling)",
 ]
 OPS = ops.ROLL + ops.SHIFT
-N_CASES = {"quick": 1000, "thorough": 26000}
+N_CASES = {"quick": 1000, "thorough": 12000}
 
 
 def plan(tier):
